@@ -28,6 +28,7 @@ type FaultsPlan struct {
 	Family   string              `json:"family"` // trunc | wfail | corrupt | rderr | crash
 	Msgs     []MsgSpec           `json:"msgs"`
 	Policies []simio.ChunkPolicy `json:"policies,omitempty"`
+	Wraps    []string            `json:"wraps,omitempty"`  // per policy: what concrete reader type the stream is handed over as (see source.go)
 	Seed     uint64              `json:"seed"`             // derives sampled positions / arbitrary bytes
 	Points   []int               `json:"points,omitempty"` // explicit fault positions (minimised plans); empty = enumerate/sample
 	Off      int64               `json:"off,omitempty"`    // disk offset for the real-stack variants
@@ -65,6 +66,7 @@ func (FramesFaults) Generate(seed uint64, tier string) engine.Plan {
 		p.Msgs = append(p.Msgs, m)
 	}
 	p.Policies = []simio.ChunkPolicy{genPolicy(r), genPolicy(r)}
+	p.Wraps = []string{wrapKinds[r.Intn(len(wrapKinds))], wrapKinds[r.Intn(len(wrapKinds))]}
 	if p.Family != "corrupt" && r.Chance(1, 60) {
 		// a frame around/above the 1 MiB incremental-read threshold (fault
 		// positions are then sampled, not enumerated)
@@ -223,6 +225,13 @@ func modelUnmarshal(b []byte) umodel {
 		return umodel{32, "badhs", false}
 	}
 	rem := uint64(len(b) - 32)
+	if bs >= 1<<63 {
+		// No valid frame has a body of 2^63 bytes or more (sizes are int64), so
+		// this is not "a strict prefix of a valid frame": only "returns normally,
+		// no success" is stated — which error, and whether the rest of the stream
+		// is drained first, is open.
+		return umodel{-1, "anyerr", false}
+	}
 	if bs <= rem {
 		return umodel{32 + int64(bs), "ok-or-protoerr", true}
 	}
@@ -235,6 +244,12 @@ func modelUnmarshal(b []byte) umodel {
 func checkAgainstModel(inv string, step int, m umodel, n int64, err error, consumed int64, what string) *engine.Failure {
 	if !m.complete && err == nil {
 		return engine.Failf(inv+".success", step, "%s: Unmarshal succeeded although no complete frame was present", what)
+	}
+	if m.class == "anyerr" {
+		if n != consumed || n < 32 {
+			return engine.Failf(inv+".count", step, "%s: Unmarshal returned n=%d but consumed %d bytes (a 32-byte header was present)", what, n, consumed)
+		}
+		return nil
 	}
 	if n != m.n {
 		return engine.Failf(inv+".count", step, "%s: Unmarshal returned n=%d, model says %d (err=%v)", what, n, m.n, err)
@@ -292,16 +307,25 @@ func (FramesFaults) Execute(pl engine.Plan, c *engine.RunCtx) *engine.Failure {
 		stream = append(stream, fr.frame...)
 		lens = append(lens, int64(len(fr.frame)))
 	}
-	call := func(s *simio.Stream, msg proto.Message) (int64, string, error, interface{}, int64) {
+	wrapOf := func(pi int) string {
+		if pi < len(p.Wraps) {
+			return p.Wraps[pi]
+		}
+		return ""
+	}
+	callSrc := func(src source, msg proto.Message) (int64, string, error, interface{}, int64) {
 		step++
-		before := s.Pos
-		s.BeginCall()
+		before := src.pos()
+		src.beginCall()
 		c.Status.SetStep(uint64(step), 1)
-		n, ver, err, pan := callUnmarshal(s, msg)
+		n, ver, err, pan := callUnmarshal(src.r, msg)
 		c.Status.SetStep(uint64(step), 0)
 		c.LibCalls++
-		c.Ev(0, "unmarshal", n, int64(s.Pos-before))
-		return n, ver, err, pan, int64(s.Pos - before)
+		c.Ev(0, "unmarshal", n, int64(src.pos()-before))
+		return n, ver, err, pan, int64(src.pos() - before)
+	}
+	call := func(s *simio.Stream, msg proto.Message) (int64, string, error, interface{}, int64) {
+		return callSrc(newSource("", s, nil), msg)
 	}
 	fired := func(s *simio.Stream) {
 		for k, v := range s.Fired {
@@ -326,12 +350,16 @@ func (FramesFaults) Execute(pl engine.Plan, c *engine.RunCtx) *engine.Failure {
 					st.Inc("fault_points")
 					s := simio.NewStream(stream, pol)
 					s.Cut, s.Piggyback = k, piggy
-					what := fmt.Sprintf("cut=%d policy#%d piggyback=%v", k, pi, piggy)
+					src := newSource(wrapOf(pi), s, stream)
+					if wrapOf(pi) != "" {
+						st.Inc("probe.C07.source_is_" + wrapOf(pi))
+					}
+					what := fmt.Sprintf("cut=%d policy#%d piggyback=%v source=%q", k, pi, piggy, wrapOf(pi))
 					total := int64(0)
 					done := false
 					for i := 0; i < len(frames) && !done; i++ {
 						msg := frames[i].spec.Empty()
-						n, ver, err, pan, consumed := call(s, msg)
+						n, ver, err, pan, consumed := callSrc(src, msg)
 						if pan != nil {
 							return livenessOrPanic("C07.cut", step, pan, what)
 						}
@@ -696,10 +724,15 @@ func (FramesFaults) Execute(pl engine.Plan, c *engine.RunCtx) *engine.Failure {
 					st.Inc("fault_points")
 					s := simio.NewStream(stream, pol)
 					s.ErrAt, s.Err, s.Piggyback = k, simio.ErrInjected, piggy
-					what := fmt.Sprintf("read error at byte %d policy#%d piggyback=%v", k, pi, piggy)
+					wk := wrapOf(pi)
+					if wk == "bytesreader" || wk == "bytesbuffer" {
+						wk = "bufio64" // those two cannot carry an injected error
+					}
+					src := newSource(wk, s, stream)
+					what := fmt.Sprintf("read error at byte %d policy#%d piggyback=%v source=%q", k, pi, piggy, wk)
 					for i := 0; i < len(frames); i++ {
 						msg := frames[i].spec.Empty()
-						n, ver, err, pan, consumed := call(s, msg)
+						n, ver, err, pan, consumed := callSrc(src, msg)
 						if pan != nil {
 							return livenessOrPanic("C07.rderr", step, pan, what)
 						}
@@ -718,6 +751,12 @@ func (FramesFaults) Execute(pl engine.Plan, c *engine.RunCtx) *engine.Failure {
 						}
 						if err == nil {
 							return engine.Failf("C07.rderr.success", step, "%s: frame %d was NOT delivered completely, yet Unmarshal reported success (n=%d)", what, i, n)
+						}
+						if cause(err) == io.EOF {
+							// io.EOF is the statement's signal for "nothing was available,
+							// the stream ended cleanly"; the stream did NOT end here, the
+							// reader failed: a read-until-EOF loop would stop silently
+							return engine.Failf("C07.rderr.eof_invented", step, "%s: the reader failed with an I/O error (it never reported EOF) but Unmarshal reports cause io.EOF (n=%d): a read-until-EOF loop would end cleanly and drop the remaining frames", what, n)
 						}
 						break
 					}
@@ -792,6 +831,13 @@ func (FramesFaults) Shrink(pl engine.Plan) []engine.Plan {
 			out = append(out, q)
 			q = clone()
 			q.Points = append([]int(nil), pts[len(pts)/2:]...)
+			out = append(out, q)
+		}
+	}
+	for i, wk := range p.Wraps {
+		if wk != "" {
+			q := clone()
+			q.Wraps[i] = ""
 			out = append(out, q)
 		}
 	}
